@@ -96,6 +96,10 @@ def constructs():
         ("RMember", "in-list", lambda x, y: x in [y]), ("RMember", "in-tuple", lambda x, y: x in (y,)),
         ("RMember", "not-in", lambda x, y: x not in [y]), ("RMember", "list.count", lambda x, y: [y].count(x)),
         ("RMember", "==-as-condition", lambda x, y: 1 if x == y else 2), ("RMember", "!=-as-condition", lambda x, y: 1 if x != y else 2),
+        # membership decided by hashing before (or instead of) equality
+        ("RMember", "in-set", lambda x, y: x in {y}), ("RMember", "in-dict", lambda x, y: x in {y: 1}),
+        ("RMember", "dict.get", lambda x, y: {y: 1}.get(x, 2)), ("RMember", "set-intersection", lambda x, y: {y} & {x}),
+        ("RMember", "in-frozenset", lambda x, y: x in frozenset([y])),
         ("RIter", "for", lambda x, y: [e for e in x]), ("RIter", "list()", lambda x, y: list(x)),
         ("RIter", "unpack", lambda x, y: (lambda *a: a)(*x)), ("RIter", "iter()", lambda x, y: iter(x)),
         ("RIter", "sum", lambda x, y: sum(x)), ("RIter", "enumerate", lambda x, y: list(enumerate(x))),
